@@ -4,19 +4,19 @@
 (* the registry is what the environment model registers; the generation loop runs one      *)
 (* Visit action per registry entry.  At terminal states the abstract predicates are        *)
 (* evaluated on the model's own output and the case is printed for replay into the crate.  *)
-EXTENDS Typegen, Families, SettingsPool, Json, SequencesExt
+EXTENDS Source, SettingsPool, Json, SequencesExt
 
 CONSTANTS FAMILY, ALLSETTINGS, WITHPROG
 
 Cases == CASE FAMILY = "G1a_1" -> G1a_1(0) [] FAMILY = "G1a_2" -> G1a_2(0) [] FAMILY = "G1b" -> G1b(0) [] FAMILY = "G1c" -> G1c(0)
-         [] FAMILY = "G2p_2" -> G2p_2(0) [] FAMILY = "G2p_3" -> G2p_3(0)
+         [] FAMILY = "G2p_2" -> G2p_2(0) [] FAMILY = "G2p_3" -> G2p_3(0) [] FAMILY = "G2s" -> G2Shapes(0) [] FAMILY = "G2p_3s" -> G2p_3s(0)
 
 VARIABLES c, S, reg, gst
 vars == <<c, S, reg, gst>>
 
 Init == /\ c \in Cases
         /\ S \in (IF ALLSETTINGS THEN SettingsPool ELSE {Base})
-        /\ reg = Register(c.prog, c.roots).reg
+        /\ reg = Register(ProgOf(c), c.roots).reg
         /\ gst = GenStart(reg, GenInit)
 
 Running == gst.res = "running" /\ gst.i <= Len(reg)
@@ -49,7 +49,7 @@ ModelFile == [name |-> "", vis |-> TRUE, uses |-> <<>>, mods |-> <<BuildMod(S.ro
 ModelRoot == RootOf(ModelFile)
 
 Terminal == gst.res # "running"
-CF == CoincidenceFree(c.prog, c.roots)
+CF == CoincidenceFree(ProgOf(c), c.roots)
 
 \* the same predicates TV evaluates on the implementation, here on the model
 M_Unfaithful == {id \in Ids(reg) : LET r == ResolveTypePath(reg, S, id) IN r.err = "" /\ ~FaithfulTop(reg, S, ModelRoot, id, r.ty)}
@@ -62,13 +62,32 @@ M_C10 == gst.res \in {"ok", "DuplicateTypePath"}
 M_TEqSound == \A p \in UserPaths(reg) : \A x, y \in IdsOfPath(reg, p) : TypesEqual(reg, x, y) => CoRepItems(reg, S, x, y)
 M_C03 == gst.res = "ok" => M_Unfaithful = {}
 
+\* C05 on the model: every definition's item is the expected item derived from the source program
+Tog == CF /\ OneDefPerPath(ProgOf(c), c.roots)
+M_C05 == (gst.res = "ok" /\ Tog) =>
+           \A d \in {x \in C05Defs(ProgOf(c), c.roots) : SubFor(S, x.mod \o <<x.ident>>) = 0} :
+             LET it == FindItem(ModelRoot, <<S.root>> \o d.mod \o <<d.ident>>) IN
+             it.kind # "none" /\ ItemAgrees(ExpectedItem(ProgOf(c), S, d), it)
+DesignC05 == Terminal => M_C05
+
 \* design-level invariants: C01 for coincidence-free programs, C02/C10 for all
 DesignC01 == (Terminal /\ CF) => M_C01
 DesignC02 == Terminal => M_C02
 DesignC10 == Terminal => M_C10
 
+\* C17: permutations of the registry (reverse order, rotation) chosen here and replayed into the crate
+Rev == [i \in Ids(reg) |-> Len(reg) - 1 - i]
+Rot == [i \in Ids(reg) |-> (i + 1) % Len(reg)]
+ItemMap(g) == {<<g.items[k].path, g.items[k].item>> : k \in DOMAIN g.items}
+M_C17 == \A pi \in {Rev, Rot} : LET g2 == Generate(Permute(reg, pi), S) IN g2.res = gst.res /\ (gst.res = "ok" => ItemMap(g2) = ItemMap(gst))
+DesignC17 == (Terminal /\ Tog) => M_C17
+LastUserId == LET u == {i \in Ids(reg) : IsUserPath(Ty(reg, i).path)} IN IF u = {} THEN 0 ELSE CHOOSE i \in u : \A j \in u : j <= i
+
 Emit == Terminal =>
-  PrintT("CASE " \o ToJson([fam |-> c.fam, cf |-> CF, tog |-> CF /\ OneDefPerPath(c.prog, c.roots), reg |-> reg, settings |-> S, roots |-> Register(c.prog, c.roots).roots,
-                            prog |-> IF WITHPROG THEN c.prog ELSE [defs |-> <<>>, cfgs |-> <<>>],
-                            model |-> [res |-> gst.res, c01 |-> M_C01, c02 |-> M_C02, c03 |-> M_C03, teq_sound |-> M_TEqSound]]))
+  PrintT("CASE " \o ToJson([fam |-> c.fam, cf |-> CF, tog |-> Tog, sroots |-> IF WITHPROG THEN c.roots ELSE <<>>, reg |-> reg, settings |-> S, roots |-> Register(ProgOf(c), c.roots).roots,
+                            prog |-> IF WITHPROG THEN ProgOf(c) ELSE [defs |-> <<>>, cfgs |-> <<>>],
+                            perms |-> <<[pi |-> [i \in 1..Len(reg) |-> Rev[i - 1]], reg |-> Permute(reg, Rev)],
+                                        [pi |-> [i \in 1..Len(reg) |-> Rot[i - 1]], reg |-> Permute(reg, Rot)]>>,
+                            retain |-> <<LastUserId>>,
+                            model |-> [res |-> gst.res, c01 |-> M_C01, c02 |-> M_C02, c03 |-> M_C03, c05 |-> M_C05, c17 |-> (Tog => M_C17), teq_sound |-> M_TEqSound]]))
 =================================================================================
